@@ -105,6 +105,15 @@ EXTRA = [
       return (a, -2)
   return (a, -1)
 '''),
+    ('o:logical_under_unary_arith', '''def f(x, n, b, xs):
+  a = -(x > 1 and b)
+  c = +(not b) - (-(x < n or b))
+  d = 0
+  for e in xs:
+    d = d + -(e > x and (b or e == n))
+  w = ~(-(x > 2 or not b))
+  return (a, c, d, w)
+'''),
     ('o:while_in_lambda_caller', '''def f(x, n, b, xs):
   a = 0
   k = lambda u: u + 1 if u > x else u - 1
